@@ -135,6 +135,8 @@ EncWriteFrag(path, t, n, off, vals) ==
 EncGetAttrSingle(path)         == <<14>> \o EncEPATH(path)
 EncSetAttrSingle(path, bytes)  == <<16>> \o EncEPATH(path) \o bytes
 EncGetAttrAll(path)            == <<1>> \o EncEPATH(path)
+\* Get Attribute List: the count of attribute numbers, then the numbers (16 bits each)
+EncGetAttrList(path, attrs)    == <<3>> \o EncEPATH(path) \o U16(Len(attrs)) \o Concat([ i \in 1 .. Len(attrs) |-> U16(attrs[i]) ])
 
 (* Replies: service | 0x80, reserved 0, status, [type, data] *)
 EncReadReply(svc, st, ext, t, vals) ==
